@@ -178,6 +178,7 @@ def carriers(kind, cfg):
         out = _TYPE_CARRIERS + [("struct", _graph, {}, ())]
         other = {
             "int": lambda: histogram([0, 1, 2], [1.5, 2.5]),
+            "int_last": lambda: histogram([0, 1, 2], [1, 2.5]),   # the first cell is an int
             "vec": _h1,
             "ctxsel": lambda: histogram([0, 1, 2], [(1, {"sel": {"no": 1}}), (2, {"sel": {"no": 1}})]),
         }.get(cfg)
@@ -242,6 +243,8 @@ def parts(name):
 def cause_name(name):
     """The name under which a foreign value appears in the signature of a violation (the element is
     part of the signature already, the configuration is not needed)."""
+    if name.startswith(al.SHAPE_PREFIX):
+        return al.SHAPE_PREFIX + name.split(":")[2]
     if not is_setting(name):
         return name
     _, _, cname, fname = parts(name)
